@@ -12,7 +12,8 @@
           collection consulted instead of the stored definitions must provably hold the identifier of every stored filter (class Mirror:
           every write of the layer mapping is accompanied by additions that cover the identifiers of what is written, nothing is removed);
           the 'pending' test agrees with the stored values; architecture guards
-  C16.R4  accepted definitions are stored faithfully (whole list, in order, under the single pending layer) and read back unchanged
+  C16.R4  accepted definitions are stored faithfully (whole list, in order, under the single pending layer) and read back unchanged;
+          the layer rule never mutates a list handed out by architecture[layer] (directly, or through an attribute it aliased it to)
 
 A negative verdict needs positive evidence: when the guard / key / value it is read from contains a call the executor does not model,
 or consults the stored definitions in a way that is not recognised, the obligation is undecided (exit 2), not violated.
@@ -1249,6 +1250,38 @@ def check_layer_rule(repo: Repo, sx: SymExec, res: Result) -> None:
     flag = flags.pop()
     check_are_named(repo, F, res, arch, rule, flag)
     check_side_flag(repo, F, res, rule, rule_cls, flag)
+    check_definitions_not_shared(repo, F, res, arch, rule)
+
+
+def check_definitions_not_shared(repo: Repo, F: RuleFacts, res: Result, arch: Term, rule: Term) -> None:
+    """An accepted definition lists exactly the modules that were supplied - also after rules have been built from it: the list object
+    `architecture[layer]` hands out (the stored definition itself, C16.R4 `reads the mapping unchanged`) must not be mutated by the layer
+    rule.  Violated on positive evidence only: a mutating call on the definition itself, or the definition kept by reference (no copy)
+    in an attribute that a mutating call of the layer-rule words extends in place."""
+    r = F.run("are_named")
+    m = r.fi
+    key = K(m, "stored definitions are not mutated")
+    ADD = {"extend", "append", "insert", "__iop__", "remove", "pop", "clear", "sort", "reverse", "update", "add"}
+
+    def is_definition(t: Term) -> bool:
+        return (t[0] == "index" and t[1] == arch) or (t[0] == "mcall" and t[1] == arch and t[2] in ("__getitem__", "get"))
+
+    words = ["are_named"] + declared_in(repo, F.lr, "BehaviorBaseSpecification") + declared_in(repo, F.lr, "AccessSpecification")
+    mutations = [(w, e) for w in words for e in F.run(w).of("call") if e.data["method"] in ADD and e.data["recv"] is not None]
+    for _w, e in mutations:
+        if _w == "are_named" and any(is_definition(leaf) for _c, leaf in phi_leaves(e.data["recv"])):
+            res.add("C16.R4", key, False, f"`{_ev_text(e)}` mutates `{show(e.data['recv'])[:60]}`, the list the architecture stores for the layer: the accepted definition no longer lists exactly the modules that were supplied", e.where, kind="flow")
+            return
+    for e in r.of("setattr"):
+        leaves = [leaf for _c, leaf in phi_leaves(e.data["value"]) if is_definition(leaf)]
+        if not leaves or not (mentions(e.data["obj"], rule) or e.data["obj"][0] in ("obj", "new")):
+            continue
+        slot = ("attr", e.data["obj"], e.data["attr"])
+        for w, c in mutations:
+            if any(leaf == slot for _c, leaf in phi_leaves(c.data["recv"])):
+                res.add("C16.R4", key, False, f"are_named keeps `{show(leaves[0])[:60]}` - the list object the architecture stores for the layer, not a copy - as `{show(slot)[:70]}`, and `{_ev_text(c)[:70]}` ({w}) extends that attribute in place: naming a further layer appends its modules to the stored definition of the first one", e.where, kind="flow")
+                return
+    res.add("C16.R4", key, True, "no mutating call of the layer-rule words reaches a list handed out by architecture[layer]", f"{m.relpath}:{m.node.lineno}", nontrivial=False, kind="flow")
 
 
 def _show_f(f) -> str:
